@@ -9,7 +9,10 @@ import (
 	"github.com/tidwall/tile38/internal/log"
 )
 
-const disqueExpiresAfter = time.Second * 30
+const (
+	disqueExpiresAfter   = time.Second * 30
+	disqueRequestTimeout = time.Second * 5
+)
 
 // DisqueConn is an endpoint connection
 type DisqueConn struct {
@@ -66,7 +69,10 @@ func (conn *DisqueConn) Send(msg string) error {
 	if conn.conn == nil {
 		addr := fmt.Sprintf("%s:%d", conn.ep.Disque.Host, conn.ep.Disque.Port)
 		var err error
-		conn.conn, err = redis.Dial("tcp", addr)
+		conn.conn, err = redis.Dial("tcp", addr,
+			redis.DialConnectTimeout(disqueRequestTimeout),
+			redis.DialReadTimeout(disqueRequestTimeout),
+			redis.DialWriteTimeout(disqueRequestTimeout))
 		if err != nil {
 			return err
 		}
